@@ -109,6 +109,19 @@ Definition v_func2 (x wx y wy : list float) (x1 x2 y1 y2 : float) (xg yg zv : li
             end
           end.
 
+(* ... and the array shapes of the object: weight grid and summed integrand (QGauss2 shape model) *)
+Definition shape_eqb (a b : Z * Z) : bool := (fst a =? fst b) && (snd a =? snd b).
+Definition shapes_agree (nx ny : Z) (wshape ishape : Z * Z) : bool :=
+  match F.wgrid_shape false nx ny, F.integrand_shape false nx ny with
+  | Some a, Some b => shape_eqb a wshape && shape_eqb b ishape
+  | _, _ => false
+  end.
+Definition v_func2s (nx ny : Z) (wshape ishape : Z * Z)
+           (x wx y wy : list float) (x1 x2 y1 y2 : float) (xg yg zv : list float) (out : result float) : Z :=
+  let v := v_func2 x wx y wy x1 x2 y1 y2 xg yg zv out in
+  if shapes_agree nx ny wshape ishape && (Z.of_nat (length x) =? nx) && (Z.of_nat (length y) =? ny)
+  then v else if v mod 2 =? 0 then v + 1 else v.
+
 (* ---- call histories on one QGauss object.  Model: the cache state machine with the rule
         identified by the point count it was computed for. *)
 Definition hist_model (n0 : option Z) (ops : list (option Z)) : result (list (result Z)) :=
